@@ -1,48 +1,120 @@
-// Package simnet is an in-memory network of buffered byte pipes for simulated
-// runs: Listen/Dial by "host:port", deadlines on the (fake) clock, fragmentation
-// and connection faults decided by a seeded PRNG. Std + simrt only.
+// Package simnet is the simulated network: Listen/Dial by "host:port", in-memory
+// full-duplex byte streams whose delivery (fragmentation, latency, stalls,
+// resets, black holes) is decided by the run's fault tape, deadlines on the fake
+// clock. TCP semantics: bytes of one connection are never lost, duplicated or
+// reordered — a connection either delivers a prefix of what was written or is
+// torn. Std + simrt only. Not instrumented: code here runs atomically between
+// the explicit simrt scheduling points.
 package simnet
 
 import (
 	"context"
 	"errors"
 	"io"
-	"math/rand/v2"
 	"net"
 	"os"
-	"sync"
+	"sort"
+	"strings"
+	"syscall"
 	"time"
 
 	"github.com/tochemey/goakt/v4/zzverif/simrt"
 )
 
+// Config selects which fault kinds a run may inject (probabilities are per
+// mille, drawn from the fault tape, so 0 on the tape = no fault).
+type Config struct {
+	Fragment    bool          // deliver writes in arbitrary fragments (short reads)
+	LatencyMax  time.Duration // per-connection constant latency in [0, LatencyMax] (reorders requests across pooled connections)
+	ResetPerm   int           // per connection: probability that it is torn after a drawn number of bytes
+	StallPerm   int           // per connection: probability that delivery stalls once for StallFor
+	StallFor    time.Duration
+	RefusePerm  int // per dial: connection refused
+	MaxResetAt  int // upper bound for the reset byte offset
+}
+
 type Network struct {
-	mu        sync.Mutex
+	F         *simrt.Tape
+	Cfg       Config
 	listeners map[string]*Listener
-	rng       *rand.Rand
-	Fragment  bool
+	conns     []*Conn
 	Stats     map[string]int
 	nextPort  int
+	start     time.Time
+	blackhole map[string]bool // listener addresses whose traffic is dropped (crashed / partitioned node)
+	nodes     map[string]string // thread-id prefix -> node address (who is dialing)
+	cut       map[string]bool   // "a|b" pairs of node addresses that cannot talk
 }
 
-var (
-	current *Network
-)
+var current *Network
 
-// Enable installs a fresh network for the run; Disable removes it.
-func Enable(seed uint64) *Network {
-	current = &Network{listeners: map[string]*Listener{}, rng: rand.New(rand.NewPCG(seed, 0x6e65)), Stats: map[string]int{}, nextPort: 40000}
+// Enable installs a fresh network for the run.
+func Enable(f *simrt.Tape, cfg Config) *Network {
+	current = &Network{F: f, Cfg: cfg, listeners: map[string]*Listener{}, Stats: map[string]int{}, nextPort: 40000, start: time.Now(),
+		blackhole: map[string]bool{}, nodes: map[string]string{}, cut: map[string]bool{}}
 	return current
 }
+
 func Disable()      { current = nil }
 func Enabled() bool { return current != nil }
+func Cur() *Network { return current }
+
+func (n *Network) stat(k string) { n.Stats[k]++ }
+
+// RegisterNode declares that every goroutine descending from the calling
+// thread belongs to the node listening on addr (used to attribute dials).
+func (n *Network) RegisterNode(addr string) { n.nodes[simrt.ThreadID()+"."] = addr }
+
+func (n *Network) nodeOfCaller() string {
+	id := simrt.ThreadID() + "."
+	best, bestLen := "", 0
+	for p, a := range n.nodes {
+		if strings.HasPrefix(id, p) && len(p) > bestLen {
+			best, bestLen = a, len(p)
+		}
+	}
+	return best
+}
+
+func pairKey(a, b string) string {
+	if a > b {
+		a, b = b, a
+	}
+	return a + "|" + b
+}
+
+// Partition cuts (or heals) the link between two node addresses: new dials time
+// out, bytes written on existing connections are silently dropped.
+func (n *Network) Partition(a, b string, cut bool) {
+	if cut {
+		n.cut[pairKey(a, b)] = true
+		n.stat("fault:partition")
+	} else {
+		delete(n.cut, pairKey(a, b))
+		n.stat("fault:heal")
+	}
+}
+
+// Blackhole makes a node unreachable in both directions (a crashed or frozen node).
+func (n *Network) Blackhole(addr string, on bool) {
+	if on {
+		n.blackhole[addr] = true
+		n.stat("fault:blackhole")
+	} else {
+		delete(n.blackhole, addr)
+	}
+}
+
+func (n *Network) blocked(a, b string) bool {
+	return n.blackhole[a] || n.blackhole[b] || (a != "" && b != "" && n.cut[pairKey(a, b)])
+}
 
 type Listener struct {
 	n      *Network
 	addr   *net.TCPAddr
 	accept chan net.Conn
 	closed chan struct{}
-	once   sync.Once
+	isDown bool
 }
 
 func Listen(addr string) (*Listener, error) {
@@ -51,135 +123,200 @@ func Listen(addr string) (*Listener, error) {
 	if err != nil {
 		return nil, err
 	}
-	simrt.Lock(-100, &n.mu)
-	defer simrt.Unlock(&n.mu)
 	key := ta.String()
 	if _, ok := n.listeners[key]; ok {
-		return nil, errors.New("simnet: address already in use " + key)
+		return nil, &net.OpError{Op: "listen", Net: "tcp", Addr: ta, Err: syscall.EADDRINUSE}
 	}
-	l := &Listener{n: n, addr: ta, accept: make(chan net.Conn, 64), closed: make(chan struct{})}
+	l := &Listener{n: n, addr: ta, accept: make(chan net.Conn, 256), closed: make(chan struct{})}
 	n.listeners[key] = l
 	return l, nil
 }
 
 func (l *Listener) Accept() (net.Conn, error) {
-	simrt.Yield(-101)
+	simrt.Yield(-110)
 	select {
 	case c := <-l.accept:
+		simrt.Yield(-110)
 		return c, nil
 	case <-l.closed:
+		simrt.Yield(-110)
 		return nil, net.ErrClosed
 	}
 }
 
 func (l *Listener) Close() error {
-	l.once.Do(func() {
+	if !l.isDown {
+		l.isDown = true
 		close(l.closed)
-		simrt.Lock(-102, &l.n.mu)
 		delete(l.n.listeners, l.addr.String())
-		simrt.Unlock(&l.n.mu)
-	})
+	}
 	return nil
 }
 
 func (l *Listener) Addr() net.Addr { return l.addr }
 
+func refused(ta *net.TCPAddr) error {
+	return &net.OpError{Op: "dial", Net: "tcp", Addr: ta, Err: syscall.ECONNREFUSED}
+}
+
+// Dial connects to a simulated listener.
 func Dial(ctx context.Context, addr string) (net.Conn, error) {
 	n := current
 	ta, err := net.ResolveTCPAddr("tcp", addr)
 	if err != nil {
 		return nil, err
 	}
-	simrt.Lock(-103, &n.mu)
-	l := n.listeners[ta.String()]
+	simrt.Yield(-111)
+	from := n.nodeOfCaller()
+	to := ta.String()
+	n.stat("dial")
+	if n.blocked(from, to) {
+		// packets vanish: the dial hangs until the caller gives up
+		n.stat("fault:dial-blackholed")
+		t := time.NewTimer(30 * time.Second)
+		defer t.Stop()
+		select {
+		case <-ctx.Done():
+			simrt.Yield(-111)
+			return nil, &net.OpError{Op: "dial", Net: "tcp", Addr: ta, Err: ctx.Err()}
+		case <-t.C:
+			simrt.Yield(-111)
+			return nil, &net.OpError{Op: "dial", Net: "tcp", Addr: ta, Err: os.ErrDeadlineExceeded}
+		}
+	}
+	l := n.listeners[to]
+	if l == nil {
+		return nil, refused(ta)
+	}
+	if n.Cfg.RefusePerm > 0 && n.F.Draw(1000) < n.Cfg.RefusePerm {
+		n.stat("fault:dial-refused")
+		return nil, refused(ta)
+	}
 	n.nextPort++
 	local := &net.TCPAddr{IP: net.IPv4(127, 0, 0, 1), Port: n.nextPort}
-	n.Stats["dial"]++
-	simrt.Unlock(&n.mu)
-	if l == nil {
-		return nil, &net.OpError{Op: "dial", Net: "tcp", Addr: ta, Err: errors.New("connection refused")}
+	st := &connState{n: n, from: from, to: to, resetAt: -1}
+	if n.Cfg.LatencyMax > 0 {
+		st.latency = time.Duration(n.F.Draw(8)) * n.Cfg.LatencyMax / 7
 	}
-	a2b, b2a := newHalf(n), newHalf(n)
-	cl := &Conn{n: n, rd: b2a, wr: a2b, local: local, remote: ta}
-	sv := &Conn{n: n, rd: a2b, wr: b2a, local: ta, remote: local}
-	simrt.Yield(-104)
+	if n.Cfg.ResetPerm > 0 && n.F.Draw(1000) < n.Cfg.ResetPerm {
+		st.resetAt = n.F.Draw(max(n.Cfg.MaxResetAt, 2))
+	}
+	if n.Cfg.StallPerm > 0 && n.F.Draw(1000) < n.Cfg.StallPerm {
+		st.stallAt = 1 + n.F.Draw(max(n.Cfg.MaxResetAt, 2))
+	}
+	a2b, b2a := newHalf(), newHalf()
+	cl := &Conn{st: st, rd: b2a, wr: a2b, local: local, remote: ta, done: make(chan struct{})}
+	sv := &Conn{st: st, rd: a2b, wr: b2a, local: ta, remote: local, done: make(chan struct{}), server: true}
+	cl.peer, sv.peer = sv, cl
+	n.conns = append(n.conns, cl)
 	select {
 	case l.accept <- sv:
+		simrt.Yield(-111)
 		return cl, nil
 	case <-l.closed:
-		return nil, &net.OpError{Op: "dial", Net: "tcp", Addr: ta, Err: errors.New("connection refused")}
+		simrt.Yield(-111)
+		return nil, refused(ta)
 	case <-ctx.Done():
+		simrt.Yield(-111)
 		return nil, ctx.Err()
 	}
 }
 
-type half struct {
-	ch     chan []byte
-	closed chan struct{} // writer side closed
-	once   sync.Once
+// connState is shared by the two ends of a connection.
+type connState struct {
+	n        *Network
+	from, to string
+	latency  time.Duration
+	resetAt  int // total bytes (both directions) after which the connection is torn; -1 never
+	stallAt  int // byte count at which delivery stalls once
+	stalled  bool
+	written  int
+	reset    bool
 }
 
-func newHalf(n *Network) *half {
-	return &half{ch: make(chan []byte, 4096), closed: make(chan struct{})}
+type segment struct {
+	b     []byte
+	ready time.Duration // simulated instant from which it may be read
+}
+
+type half struct {
+	q      []segment
+	sig    chan struct{} // capacity 1: data or state change
+	closed bool          // writer closed: EOF after the queue drains
+}
+
+func newHalf() *half { return &half{sig: make(chan struct{}, 1)} }
+
+func (h *half) notify() {
+	select {
+	case h.sig <- struct{}{}:
+	default:
+	}
 }
 
 type Conn struct {
-	n             *Network
+	st            *connState
+	peer          *Conn
 	rd, wr        *half
 	local, remote *net.TCPAddr
 	left          []byte
 	rdl, wdl      time.Time
-	once          sync.Once
+	closed        bool
 	done          chan struct{}
-	mu            sync.Mutex
+	server        bool
 }
 
-func (c *Conn) doneCh() chan struct{} {
-	c.mu.Lock()
-	defer c.mu.Unlock()
-	if c.done == nil {
-		c.done = make(chan struct{})
-	}
-	return c.done
-}
+var errReset = &net.OpError{Op: "read", Net: "tcp", Err: syscall.ECONNRESET}
+
+func (c *Conn) now() time.Duration { return time.Since(c.st.n.start) }
 
 func (c *Conn) Read(p []byte) (int, error) {
-	if len(c.left) == 0 {
+	simrt.Yield(-112)
+	for len(c.left) == 0 {
+		if c.closed {
+			return 0, net.ErrClosed
+		}
+		if c.st.reset {
+			return 0, errReset
+		}
+		var wait time.Duration = -1
+		if len(c.rd.q) > 0 {
+			if d := c.rd.q[0].ready - c.now(); d <= 0 {
+				c.left = c.rd.q[0].b
+				c.rd.q = c.rd.q[1:]
+				break
+			} else {
+				wait = d
+			}
+		} else if c.rd.closed {
+			return 0, io.EOF
+		}
 		var tc <-chan time.Time
+		var t *time.Timer
 		if !c.rdl.IsZero() {
 			d := time.Until(c.rdl)
 			if d <= 0 {
 				return 0, os.ErrDeadlineExceeded
 			}
-			t := time.NewTimer(d)
-			defer t.Stop()
+			if wait < 0 || d < wait {
+				wait = d
+			}
+		}
+		if wait >= 0 {
+			t = time.NewTimer(wait)
 			tc = t.C
 		}
-		simrt.Yield(-105)
 		select {
-		case b := <-c.rd.ch:
-			c.left = b
-		case <-c.doneCh():
-			return 0, net.ErrClosed
+		case <-c.rd.sig:
+		case <-c.done:
 		case <-tc:
+		}
+		if t != nil {
+			t.Stop()
+		}
+		simrt.Yield(-112)
+		if !c.rdl.IsZero() && time.Until(c.rdl) <= 0 && (len(c.rd.q) == 0 || c.rd.q[0].ready > c.now()) {
 			return 0, os.ErrDeadlineExceeded
-		default:
-			select {
-			case b := <-c.rd.ch:
-				c.left = b
-			case <-c.rd.closed:
-				// drain anything still buffered before EOF
-				select {
-				case b := <-c.rd.ch:
-					c.left = b
-				default:
-					return 0, io.EOF
-				}
-			case <-c.doneCh():
-				return 0, net.ErrClosed
-			case <-tc:
-				return 0, os.ErrDeadlineExceeded
-			}
 		}
 	}
 	n := copy(p, c.left)
@@ -188,42 +325,116 @@ func (c *Conn) Read(p []byte) (int, error) {
 }
 
 func (c *Conn) Write(p []byte) (int, error) {
-	select {
-	case <-c.doneCh():
+	simrt.Yield(-113)
+	if c.closed {
 		return 0, net.ErrClosed
-	default:
+	}
+	st := c.st
+	n := st.n
+	if st.reset || (c.peer != nil && c.peer.closed) {
+		return 0, &net.OpError{Op: "write", Net: "tcp", Err: syscall.EPIPE}
+	}
+	if !c.wdl.IsZero() && time.Until(c.wdl) <= 0 {
+		return 0, os.ErrDeadlineExceeded
 	}
 	total := 0
 	for len(p) > 0 {
 		k := len(p)
-		if c.n.Fragment && k > 1 {
-			c.n.mu.Lock()
-			k = 1 + c.n.rng.IntN(k)
-			c.n.mu.Unlock()
+		if n.Cfg.Fragment && k > 1 {
+			k = 1 + n.F.Draw(k)
+			if k < len(p) {
+				n.stat("fault:fragment")
+			}
 		}
-		chunk := append([]byte(nil), p[:k]...)
-		simrt.Yield(-106)
-		select {
-		case c.wr.ch <- chunk:
-		case <-c.doneCh():
-			return total, net.ErrClosed
+		if st.resetAt >= 0 && st.written+k > st.resetAt {
+			// torn connection: only the bytes before the reset point get through
+			k = max(st.resetAt-st.written, 0)
+			if k > 0 {
+				c.deliver(p[:k])
+				total += k
+			}
+			st.reset = true
+			n.stat("fault:reset")
+			c.rd.notify()
+			c.wr.notify()
+			return total, &net.OpError{Op: "write", Net: "tcp", Err: syscall.ECONNRESET}
 		}
+		c.deliver(p[:k])
 		total += k
 		p = p[k:]
 	}
 	return total, nil
 }
 
+func (c *Conn) deliver(b []byte) {
+	st := c.st
+	st.written += len(b)
+	if st.n.blocked(st.from, st.to) {
+		st.n.stat("fault:bytes-blackholed")
+		return
+	}
+	ready := c.now() + st.latency
+	if st.stallAt > 0 && !st.stalled && st.written >= st.stallAt {
+		st.stalled = true
+		ready += st.n.Cfg.StallFor
+		st.n.stat("fault:stall")
+	}
+	if q := c.wr.q; len(q) > 0 && q[len(q)-1].ready > ready {
+		ready = q[len(q)-1].ready // never overtake earlier bytes
+	}
+	c.wr.q = append(c.wr.q, segment{append([]byte(nil), b...), ready})
+	c.wr.notify()
+}
+
 func (c *Conn) Close() error {
-	c.once.Do(func() {
-		close(c.doneCh())
-		c.wr.once.Do(func() { close(c.wr.closed) })
-	})
+	if c.closed {
+		return nil
+	}
+	c.closed = true
+	close(c.done)
+	c.wr.closed = true
+	c.wr.notify()
 	return nil
+}
+
+// Abort tears the connection from outside (fault injection by the scenario).
+func (c *Conn) Abort() {
+	c.st.reset = true
+	c.rd.notify()
+	c.wr.notify()
+	c.st.n.stat("fault:reset")
 }
 
 func (c *Conn) LocalAddr() net.Addr                { return c.local }
 func (c *Conn) RemoteAddr() net.Addr               { return c.remote }
-func (c *Conn) SetDeadline(t time.Time) error      { c.rdl, c.wdl = t, t; return nil }
-func (c *Conn) SetReadDeadline(t time.Time) error  { c.rdl = t; return nil }
+func (c *Conn) SetDeadline(t time.Time) error      { c.rdl, c.wdl = t, t; c.rd.notify(); return nil }
+func (c *Conn) SetReadDeadline(t time.Time) error  { c.rdl = t; c.rd.notify(); return nil }
 func (c *Conn) SetWriteDeadline(t time.Time) error { c.wdl = t; return nil }
+
+// Conns returns the client ends of all connections dialled so far, oldest first.
+func (n *Network) Conns() []*Conn { return n.conns }
+
+// Pipe returns a connected pair without a listener (byte-stream scenarios).
+func (n *Network) Pipe() (client, server *Conn) {
+	st := &connState{n: n, resetAt: -1}
+	a2b, b2a := newHalf(), newHalf()
+	cl := &Conn{st: st, rd: b2a, wr: a2b, local: &net.TCPAddr{IP: net.IPv4(127, 0, 0, 1), Port: 1}, remote: &net.TCPAddr{IP: net.IPv4(127, 0, 0, 1), Port: 2}, done: make(chan struct{})}
+	sv := &Conn{st: st, rd: a2b, wr: b2a, local: cl.remote, remote: cl.local, done: make(chan struct{}), server: true}
+	cl.peer, sv.peer = sv, cl
+	return cl, sv
+}
+
+// SetReset arms a reset after k more bytes on this connection.
+func (c *Conn) SetReset(k int) { c.st.resetAt = c.st.written + k }
+
+// SortedStats returns the counters in a stable order.
+func (n *Network) SortedStats() []string {
+	var l []string
+	for k := range n.Stats {
+		l = append(l, k)
+	}
+	sort.Strings(l)
+	return l
+}
+
+var _ = errors.New
